@@ -22,9 +22,9 @@ INFO = {
              'ones, optionally followed by a file round trip; (d) the add_/delete_ primitives, each judged immediately. Distinct = distinct '
              'operation sequence; non-trivial = sequences containing a topology-changing operation.'),
     'require': {
-        'quick': {'counters': {'sequences': 3000, 'invariant_evaluations': 4000, 'primitive_evaluations': 30, 'random_sequences': 10},
+        'quick': {'counters': {'sequences': 3000, 'invariant_evaluations': 4000, 'primitive_evaluations': 30, 'primitive_then_check_fix': 15, 'random_sequences': 10},
                   'seen': {'operation_kinds': 18}, 'nontrivial': 1500},
-        'thorough': {'counters': {'sequences': 150000, 'invariant_evaluations': 150000, 'primitive_evaluations': 60, 'random_sequences': 300},
+        'thorough': {'counters': {'sequences': 150000, 'invariant_evaluations': 150000, 'primitive_evaluations': 60, 'primitive_then_check_fix': 20, 'random_sequences': 300},
                      'seen': {'operation_kinds': 20}, 'nontrivial': 80000},
     },
     'exhaustive': {'quick': False, 'thorough': True},
@@ -397,6 +397,24 @@ def run_primitives(ctx, spec):
             for kind, text in bad[:1]:
                 ctx.violation('after-refresh:%s:after:%s' % (kind, op[0]), text, case)
             ctx.case(repr((base, op)), nontrivial=True)
+            # the same primitive followed directly by check(fix=True), WITHOUT the careful caller's refresh in
+            # between: check(fix=True) promises a valid mesh whatever the primitive left behind
+            if op[0] in ('delete_connection', 'delete+add_connection', 'delete_column', 'add_node', 'add+delete_node'):
+                geo = geoops.base(base)
+                op2 = geoops.enumerate_primitives(geo, ctx.rng)[i]
+                case2 = {'base': base, 'ops': [op2, ['check_fix']], 'primitive_then_check_fix': True, 'primitive_index': i}
+                with ctx.guard(case2, where=op2[0] + '+check_fix') as g:
+                    geoops.apply_op(geo, op2)
+                    geo.check(fix=True, silent=True)
+                if g.raised is not None:
+                    continue
+                ctx.evaluated()
+                ctx.count('primitive_then_check_fix')
+                # judged: what check(fix=True) promises (no missing / extra connections, no orphan nodes); whatever
+                # else the primitive left stale is the primitive's recorded finding
+                for kind, text in GI.mesh_validity(geo)[:2]:
+                    ctx.violation('after-check-fix:%s:after:%s' % (kind, op2[0]), text, case2)
+                ctx.case(repr((base, op2, 'check_fix')), nontrivial=True)
 
 
 def run_checkfix(ctx):
@@ -461,7 +479,7 @@ def replay(ctx, case):
             geoops.apply_op(geo, op)
             judge(ctx, geo, ops, case)
         ctx.evaluated()
-    elif case.get('primitive'):
+    elif case.get('primitive') or case.get('primitive_then_check_fix'):
         run_primitives(ctx, {})
     else:
         ctx.rng.seed(case.get('seed', 0) * 1000003 + case.get('shard', 0))
